@@ -532,6 +532,8 @@ func (prog Progress) walk_transform_iterateList(n datamodel.Node, s selector.Sel
 			if sNext != nil {
 				progNext := prog
 				progNext.Path = prog.Path.AppendSegment(ps)
+				var lnkNode datamodel.Node // the link node this child was loaded through, if any
+				var lnkFrom datamodel.Link
 				if v.Kind() == datamodel.Kind_Link {
 					lnk, _ := v.AsLink()
 					if prog.Cfg.LinkVisitOnlyOnce {
@@ -542,6 +544,7 @@ func (prog Progress) walk_transform_iterateList(n datamodel.Node, s selector.Sel
 					}
 					progNext.LastBlock.Path = progNext.Path
 					progNext.LastBlock.Link = lnk
+					lnkNode, lnkFrom = v, lnk
 					v, err = progNext.loadLink(lnk, v, n)
 					if err != nil {
 						if _, ok := err.(SkipMe); ok {
@@ -554,6 +557,12 @@ func (prog Progress) walk_transform_iterateList(n datamodel.Node, s selector.Sel
 				next, err := progNext.WalkTransforming(v, sNext, fn)
 				if err != nil {
 					return nil, err
+				}
+				if lnkNode != nil {
+					next, err = progNext.relink(lnkFrom, lnkNode, next)
+					if err != nil {
+						return nil, err
+					}
 				}
 				if err := lstBldr.AssembleValue().AssignNode(next); err != nil {
 					return nil, err
@@ -599,6 +608,8 @@ func (prog Progress) walk_transform_iterateMap(n datamodel.Node, s selector.Sele
 			if sNext != nil {
 				progNext := prog
 				progNext.Path = prog.Path.AppendSegment(ps)
+				var lnkNode datamodel.Node // the link node this child was loaded through, if any
+				var lnkFrom datamodel.Link
 				if v.Kind() == datamodel.Kind_Link {
 					lnk, _ := v.AsLink()
 					if prog.Cfg.LinkVisitOnlyOnce {
@@ -609,6 +620,7 @@ func (prog Progress) walk_transform_iterateMap(n datamodel.Node, s selector.Sele
 					}
 					progNext.LastBlock.Path = progNext.Path
 					progNext.LastBlock.Link = lnk
+					lnkNode, lnkFrom = v, lnk
 					v, err = progNext.loadLink(lnk, v, n)
 					if err != nil {
 						if _, ok := err.(SkipMe); ok {
@@ -621,6 +633,12 @@ func (prog Progress) walk_transform_iterateMap(n datamodel.Node, s selector.Sele
 				next, err := progNext.WalkTransforming(v, sNext, fn)
 				if err != nil {
 					return nil, err
+				}
+				if lnkNode != nil {
+					next, err = progNext.relink(lnkFrom, lnkNode, next)
+					if err != nil {
+						return nil, err
+					}
 				}
 				if err := mapBldr.AssembleValue().AssignNode(next); err != nil {
 					return nil, err
@@ -640,4 +658,26 @@ func (prog Progress) walk_transform_iterateMap(n datamodel.Node, s selector.Sele
 		return nil, err
 	}
 	return bldr.Build(), nil
+}
+
+// relink is used by the walking transform after it has transformed the content of a block that
+// it reached through a link: the parent gets a link again (as with FocusedTransform) rather than
+// the block's content inlined. An unchanged block keeps its link; a changed one is stored first.
+func (prog Progress) relink(lnk datamodel.Link, lnkNode datamodel.Node, transformed datamodel.Node) (datamodel.Node, error) {
+	newLnk, err := prog.Cfg.LinkSystem.ComputeLink(lnk.Prototype(), transformed)
+	if err != nil {
+		return nil, fmt.Errorf("transform: error hashing transformed node at %q: %w", prog.Path, err)
+	}
+	if newLnk.Binary() == lnk.Binary() {
+		return lnkNode, nil
+	}
+	newLnk, err = prog.Cfg.LinkSystem.Store(linking.LinkContext{Ctx: prog.Cfg.Ctx, LinkPath: prog.Path}, lnk.Prototype(), transformed)
+	if err != nil {
+		return nil, fmt.Errorf("transform: error storing transformed node at %q: %w", prog.Path, err)
+	}
+	nb := lnkNode.Prototype().NewBuilder()
+	if err := nb.AssignLink(newLnk); err != nil {
+		return nil, err
+	}
+	return nb.Build(), nil
 }
